@@ -37,6 +37,13 @@ const (
 	KPrim
 	KVmStack
 	KDictE
+	KDict
+	KChain
+	KHighload
+	KDictAugE
+	KDictAug
+	KCustom
+	KBinTree
 	KEncErr
 	KOpaque
 	KUnsupported
@@ -70,6 +77,7 @@ type Desc struct {
 	Marshaler bool   // ptr: the pointer type implements MarshalerTLB
 	Elem      *Desc
 	Elem2     *Desc
+	Elem3     *Desc
 	Fields    []Field
 	Ctors     []Ctor
 	Tag       *Tag // magic
@@ -143,14 +151,74 @@ var primTable = map[string]string{
 	"tlb.Anycast": "anycast", "tlb.MsgAddress": "msgAddress", "tlb.AccountStatus": "accountStatus",
 	"tlb.AccStatusChange": "accStatusChange", "tlb.ComputeSkipReason": "computeSkipReason",
 	"tlb.VmCellSlice": "vmCellSlice", "wallet.PayloadV1toV4": "payloadV1toV4", "wallet.W5Actions": "w5Actions",
+	"tlb.AddressWithWorkchain": "addrWc",
 }
 
 // custom codecs that do exactly what the reflection codec would do on the exported fields
 var structLike = map[string]bool{"tlb.Message": true, "tlb.Transaction": true}
 
 // MarshalTLB returns "not implemented"
-var encErrTable = map[string]bool{"tlb.VmStkTuple": true, "tlb.VmCont": true, "tlb.ChunkedData": true,
-	"tlb.BinTree": true, "tlb.HashmapAug": true}
+var encErrTable = map[string]bool{"tlb.VmStkTuple": true, "tlb.VmCont": true, "tlb.ChunkedData": true}
+
+// hand-written decoders with flag-dependent layout that have a model (lean/TongoModel/Tlb/Dec.lean `decodeCustom`):
+// the component types the decoder needs, as a struct descriptor
+var customAux map[string]func(u *Universe, body *Desc) *Desc
+
+func init() {
+	customAux = map[string]func(u *Universe, body *Desc) *Desc{
+		"tlb.BlockInfo": func(u *Universe, body *Desc) *Desc {
+			hdr := &Desc{Kind: KStruct, Fields: []Field{
+				{Name: "Magic", FT: "p", T: &Desc{Kind: KMagic, Tag: parseSumTag("block_info#9bc7a987")}},
+				{Name: "BlockInfo", FT: "p", T: u.Describe(reflect.TypeOf(tlb.BlockInfoPart{}))}}}
+			return auxStruct(hdr, u.Describe(reflect.TypeOf(tlb.GlobalVersion{})),
+				u.Describe(reflect.TypeOf(tlb.BlkMasterInfo{})), u.Describe(reflect.TypeOf(tlb.ExtBlkRef{})))
+		},
+		"tlb.ValueFlow": func(u *Universe, body *Desc) *Desc {
+			return auxStruct(u.Describe(reflect.TypeOf(tlb.CurrencyCollection{})))
+		},
+		"tlb.ShardState": func(u *Universe, body *Desc) *Desc {
+			return auxStruct(u.Describe(reflect.TypeOf(tlb.ShardStateUnsplit{})),
+				u.Describe(reflect.TypeOf(tlb.ShardStateUnsplitData{})))
+		},
+		"tlb.CryptoSignature": func(u *Universe, body *Desc) *Desc {
+			return auxStruct(u.Describe(reflect.TypeOf(tlb.CryptoSignatureSimpleData{})),
+				u.Describe(reflect.TypeOf(tlb.SignedSertificate{})), u.Describe(reflect.TypeOf(tlb.CryptoSignatureSimple{})))
+		},
+		"tlb.McBlockExtra": func(u *Universe, body *Desc) *Desc {
+			var ds []*Desc
+			for _, f := range body.Fields {
+				ds = append(ds, f.T)
+			}
+			return auxStruct(ds...)
+		},
+		"tlb.McStateExtraOther": func(u *Universe, body *Desc) *Desc {
+			var ds []*Desc
+			for _, f := range body.Fields {
+				ds = append(ds, f.T)
+			}
+			return auxStruct(ds...)
+		},
+	}
+}
+
+func auxStruct(ds ...*Desc) *Desc {
+	d := &Desc{Kind: KStruct}
+	for i, x := range ds {
+		d.Fields = append(d.Fields, Field{Name: fmt.Sprintf("A%d", i), FT: "p", T: x, Index: i})
+	}
+	return d
+}
+
+// dictKeyOK: the key families with a fixed size that the model knows
+func dictKeyOK(d *Desc) bool {
+	switch d.Kind {
+	case KUint, KInt, KBytes:
+		return true
+	case KPrim:
+		return d.Name == "bigUint" || d.Name == "bigInt" || d.Name == "addrWc"
+	}
+	return false
+}
 
 func (u *Universe) Describe(t reflect.Type) *Desc {
 	d := u.describe(t)
@@ -189,10 +257,60 @@ func (u *Universe) describe(t reflect.Type) *Desc {
 		case "tlb.Ref":
 			f, _ := t.FieldByName("Value")
 			return &Desc{Kind: KRef, Elem: u.Describe(f.Type)}
-		case "tlb.HashmapE":
-			return &Desc{Kind: KDictE, Name: name}
+		case "tlb.HashmapE", "tlb.Hashmap":
+			mt := t
+			if base == "tlb.HashmapE" {
+				m, _ := t.FieldByName("m")
+				mt = m.Type
+			}
+			ks, _ := mt.FieldByName("keys")
+			vs, _ := mt.FieldByName("values")
+			kd, vd := u.Describe(ks.Type.Elem()), u.Describe(vs.Type.Elem())
+			if !dictKeyOK(kd) {
+				return &Desc{Kind: KOpaque, Name: name}
+			}
+			// a value whose encoding depends on the room left in the leaf (SnakeData family written inline) is outside
+			// C05's value-codec abstraction
+			posDep := false
+			u.Walk(vd, map[string]bool{}, func(x *Desc) {
+				if x.Kind == KPrim && (x.Name == "snake" || x.Name == "bytesSnake" || x.Name == "text") {
+					posDep = true
+				}
+			})
+			if posDep {
+				return &Desc{Kind: KOpaque, Name: name}
+			}
+			if base == "tlb.Hashmap" {
+				return &Desc{Kind: KDict, Name: name, Elem: kd, Elem2: vd}
+			}
+			return &Desc{Kind: KDictE, Name: name, Elem: kd, Elem2: vd}
 		case "tlb.VmStack":
 			return &Desc{Kind: KVmStack, Elem: u.Describe(t.Elem())}
+		case "wallet.PayloadHighload":
+			return &Desc{Kind: KHighload, Name: name}
+		case "tlb.BinTree":
+			f, _ := t.FieldByName("Values")
+			return &Desc{Kind: KBinTree, Name: name, Elem: u.Describe(f.Type.Elem())}
+		case "tlb.HashmapAugE", "tlb.HashmapAug":
+			mt := t
+			if base == "tlb.HashmapAugE" {
+				m, _ := t.FieldByName("m")
+				mt = m.Type
+			}
+			ks, _ := mt.FieldByName("keys")
+			vs, _ := mt.FieldByName("values")
+			ex, _ := mt.FieldByName("extra")
+			dt, _ := ex.Type.FieldByName("Data")
+			kd, vd, xd := u.Describe(ks.Type.Elem()), u.Describe(vs.Type.Elem()), u.Describe(dt.Type)
+			if !dictKeyOK(kd) {
+				return &Desc{Kind: KOpaque, Name: name}
+			}
+			if base == "tlb.HashmapAug" {
+				return &Desc{Kind: KDictAug, Name: name, Elem: kd, Elem2: vd, Elem3: xd}
+			}
+			return &Desc{Kind: KDictAugE, Name: name, Elem: kd, Elem2: vd, Elem3: xd}
+		case "wallet.W5ExtendedActions":
+			return &Desc{Kind: KChain, Name: name, Elem: u.Describe(t.Elem())}
 		}
 		if p, ok := primTable[base]; ok {
 			return &Desc{Kind: KPrim, Name: p}
@@ -217,7 +335,7 @@ func (u *Universe) describe(t reflect.Type) *Desc {
 			}
 			return &Desc{Kind: KUnsupported, Name: name + ": unexpected underlying kind of a generated integer"}
 		}
-		if !structLike[base] {
+		if !structLike[base] && customAux[base] == nil {
 			return &Desc{Kind: KOpaque, Name: name}
 		}
 	}
@@ -255,6 +373,9 @@ func (u *Universe) describe(t reflect.Type) *Desc {
 			if _, ok := u.Named[name]; !ok && !u.busy[name] {
 				u.busy[name] = true
 				body := u.describeStruct(t)
+				if mk := customAux[base]; mk != nil {
+					body = &Desc{Kind: KCustom, Name: base, Elem: body, Elem2: mk(u, body)}
+				}
 				delete(u.busy, name)
 				body.GoType = t
 				u.Named[name] = body
@@ -358,6 +479,7 @@ func (u *Universe) Walk(d *Desc, seen map[string]bool, f func(*Desc)) {
 	default:
 		u.Walk(d.Elem, seen, f)
 		u.Walk(d.Elem2, seen, f)
+		u.Walk(d.Elem3, seen, f)
 	}
 }
 
@@ -377,7 +499,7 @@ func (u *Universe) Closure(d *Desc) []string {
 // contains decode-unmodelled or dictionary parts), "opaque:<ids>" (contains custom codecs without a model),
 // "unsupported:<reason>" (not a TL-B type of the reflection codec).
 func (u *Universe) Coverage(d *Desc) (class string, detail []string) {
-	var opaque, unsup, part []string
+	var opaque, unsup, part, decm []string
 	u.Walk(d, map[string]bool{}, func(x *Desc) {
 		switch x.Kind {
 		case KOpaque:
@@ -386,8 +508,12 @@ func (u *Universe) Coverage(d *Desc) (class string, detail []string) {
 			unsup = append(unsup, x.Name)
 		case KEncErr:
 			part = append(part, "enc-not-implemented:"+x.Name)
-		case KDictE:
-			part = append(part, "dict-empty-only")
+		case KCustom:
+			decm = append(decm, "decode-model:"+x.Name)
+		case KDictAugE, KDictAug:
+			decm = append(decm, "decode-model:HashmapAug")
+		case KBinTree:
+			decm = append(decm, "decode-model:BinTree")
 		}
 	})
 	uniq := func(xs []string) []string {
@@ -405,6 +531,8 @@ func (u *Universe) Coverage(d *Desc) (class string, detail []string) {
 		return "unsupported", uniq(unsup)
 	case len(opaque) > 0:
 		return "opaque", uniq(opaque)
+	case len(decm) > 0:
+		return "decode", uniq(append(decm, part...))
 	case len(part) > 0:
 		return "partial", uniq(part)
 	}
@@ -486,7 +614,21 @@ func (d *Desc) TextIdx(idx map[string]int) string {
 	case KVmStack:
 		return "(:vs|" + d.Elem.TextIdx(idx) + ")"
 	case KDictE:
-		return "(:de|:" + symSafe(d.Name) + ")"
+		return "(:de|" + d.Elem.TextIdx(idx) + "|" + d.Elem2.TextIdx(idx) + ")"
+	case KDict:
+		return "(:di|" + d.Elem.TextIdx(idx) + "|" + d.Elem2.TextIdx(idx) + ")"
+	case KChain:
+		return "(:ch|" + d.Elem.TextIdx(idx) + ")"
+	case KHighload:
+		return ":hl"
+	case KDictAugE:
+		return "(:dae|" + d.Elem.TextIdx(idx) + "|" + d.Elem2.TextIdx(idx) + "|" + d.Elem3.TextIdx(idx) + ")"
+	case KDictAug:
+		return "(:da|" + d.Elem.TextIdx(idx) + "|" + d.Elem2.TextIdx(idx) + "|" + d.Elem3.TextIdx(idx) + ")"
+	case KBinTree:
+		return "(:bt|" + d.Elem.TextIdx(idx) + ")"
+	case KCustom:
+		return "(:cu|:" + symSafe(d.Name) + "|" + d.Elem.TextIdx(idx) + "|" + d.Elem2.TextIdx(idx) + ")"
 	case KEncErr:
 		return "(:ee|:" + symSafe(d.Name) + ")"
 	default:
@@ -571,7 +713,21 @@ func (d *Desc) Lean(idx map[string]int) string {
 	case KVmStack:
 		return "(.vmStack " + d.Elem.Lean(idx) + ")"
 	case KDictE:
-		return fmt.Sprintf("(.dictE %q)", symSafe(d.Name))
+		return "(.dictE " + d.Elem.Lean(idx) + " " + d.Elem2.Lean(idx) + ")"
+	case KDict:
+		return "(.dict " + d.Elem.Lean(idx) + " " + d.Elem2.Lean(idx) + ")"
+	case KChain:
+		return "(.chain " + d.Elem.Lean(idx) + ")"
+	case KHighload:
+		return ".highload"
+	case KDictAugE:
+		return "(.dictAugE " + d.Elem.Lean(idx) + " " + d.Elem2.Lean(idx) + " " + d.Elem3.Lean(idx) + ")"
+	case KDictAug:
+		return "(.dictAug " + d.Elem.Lean(idx) + " " + d.Elem2.Lean(idx) + " " + d.Elem3.Lean(idx) + ")"
+	case KBinTree:
+		return "(.binTree " + d.Elem.Lean(idx) + ")"
+	case KCustom:
+		return fmt.Sprintf("(.custom %q %s %s)", symSafe(d.Name), d.Elem.Lean(idx), d.Elem2.Lean(idx))
 	case KEncErr:
 		return fmt.Sprintf("(.encErr %q)", symSafe(d.Name))
 	default:
